@@ -17,6 +17,7 @@ import (
 	"strings"
 	"syscall"
 	"testing"
+	"time"
 
 	"github.com/containerd/stargz-snapshotter/internal/verifutil"
 	"github.com/containerd/stargz-snapshotter/metadata"
@@ -512,15 +513,31 @@ func (s *verifSession) openLayer(l *verifLayer) *verifOpen {
 		out.Emit(verifEntryOp(tag, &l.ents[i]), "ok")
 	}
 	o.mem, o.memErr = memory.NewReader(verifSR(l.blob), metadata.WithDecompressors(l.newDecomp()))
+	// Every tenth open runs with a long bolt batch delay: the background initNodes cannot commit
+	// before the clone below has been used, whatever the scheduler does.
+	verifOpenCount++
+	wide := verifOpenCount%10 == 1
+	oldDelay := s.db.MaxBatchDelay
+	if wide {
+		s.db.MaxBatchDelay = 250 * time.Millisecond
+	}
 	o.db, o.dbErr = NewReader(s.db, verifSR(l.blob), metadata.WithDecompressors(l.newDecomp()))
 	if o.dbErr == nil {
+		// a Clone taken before any other call on the new reader, and used at once (what prefetch
+		// and the background fetch do through fs/reader Cache(WithReader))
+		early := verifEarlyClone(o.db, l)
 		// the db store parses in the background; a failure surfaces on the first access
 		if err := o.db.(*reader).waitInit(); err != nil {
 			o.dbErr = err
+		}
+		s.db.MaxBatchDelay = oldDelay
+		s.earlyCloneCheck(o, early, wide)
+		if o.dbErr != nil {
 			o.db.Close()
 			o.db = nil
 		}
 	}
+	s.db.MaxBatchDelay = oldDelay
 	res := func(err error) string {
 		if err != nil {
 			return "err"
@@ -689,6 +706,129 @@ func (s *verifSession) dumpBoth(o *verifOpen, readAll bool) {
 				}
 				out.Count("bytes-checked")
 			}
+		}
+	}
+}
+
+var verifOpenCount int
+
+// verifEarly is what a Clone taken right after NewReader showed when it was used immediately.
+type verifEarly struct {
+	err    error // Clone failed
+	rootID uint32
+	dig    digest.Digest
+	names  []string // recursive listing: path, type bits, size
+	lsErr  error
+}
+
+// verifNames lists the whole tree: one line per path with what does not depend on node ids or
+// link counts.  A node id is descended into once.
+func verifNames(r metadata.Reader) ([]string, error) {
+	var lines []string
+	seen := map[uint32]bool{}
+	var firstErr error
+	var walk func(p string, id uint32, depth int)
+	walk = func(p string, id uint32, depth int) {
+		a, err := r.GetAttr(id)
+		if err != nil {
+			if firstErr == nil {
+				firstErr = err
+			}
+			lines = append(lines, fmt.Sprintf("%q attr-err", p))
+			return
+		}
+		lines = append(lines, fmt.Sprintf("%q %v %d %q", p, a.Mode, a.Size, a.LinkName))
+		if seen[id] || depth > 40 {
+			return
+		}
+		seen[id] = true
+		type kid struct {
+			name string
+			id   uint32
+		}
+		var kids []kid
+		if err := r.ForeachChild(id, func(name string, cid uint32, mode os.FileMode) bool {
+			kids = append(kids, kid{name, cid})
+			return true
+		}); err != nil {
+			if firstErr == nil {
+				firstErr = err
+			}
+			lines = append(lines, fmt.Sprintf("%q ls-err", p))
+			return
+		}
+		sort.Slice(kids, func(i, j int) bool { return kids[i].name < kids[j].name })
+		for _, k := range kids {
+			walk(p+"/"+k.name, k.id, depth+1)
+		}
+	}
+	walk("", r.RootID(), 0)
+	return lines, firstErr
+}
+
+func verifEarlyClone(r metadata.Reader, l *verifLayer) *verifEarly {
+	e := &verifEarly{}
+	c, err := r.Clone(verifSR(l.blob))
+	if err != nil {
+		e.err = err
+		return e
+	}
+	e.rootID, e.dig = c.RootID(), c.TOCDigest()
+	e.names, e.lsErr = verifNames(c)
+	return e
+}
+
+func verifSameLines(a, b []string) string {
+	for i := 0; i < len(a) || i < len(b); i++ {
+		x, y := "<end>", "<end>"
+		if i < len(a) {
+			x = a[i]
+		}
+		if i < len(b) {
+			y = b[i]
+		}
+		if x != y {
+			return fmt.Sprintf("line %d: %s  vs  %s", i, x, y)
+		}
+	}
+	return ""
+}
+
+// earlyCloneCheck: a Clone taken right after NewReader is the same filesystem as its origin once
+// that has finished parsing — in particular it fails (at Clone or on first use) when the TOC is
+// rejected, and it does not show the buckets half filled.  For conforming layers it is also
+// compared with the memory store directly.
+func (s *verifSession) earlyCloneCheck(o *verifOpen, e *verifEarly, wide bool) {
+	out, l := s.out, o.l
+	out.Count("clone-db-early")
+	if wide {
+		out.Count("clone-db-early-long-batch-delay")
+	}
+	where := fmt.Sprintf("layer %s [%s]", o.tag, l.label)
+	if o.dbErr != nil {
+		// the TOC is rejected: the clone must not serve it
+		out.Count("clone-db-early-of-rejected")
+		if e.err == nil && e.lsErr == nil {
+			out.Fail("clone-differs:db:early-accepts-rejected", fmt.Sprintf("%s: the db reader rejects the TOC (%v) but a Clone taken before the first use serves it: %q", where, o.dbErr, e.names))
+		}
+		return
+	}
+	if e.err != nil {
+		out.Fail("clone-differs:db:early-err", fmt.Sprintf("%s: Clone right after NewReader fails (%v), the reader itself works", where, e.err))
+		return
+	}
+	if e.rootID != o.db.RootID() || e.dig != o.db.TOCDigest() {
+		out.Fail("clone-differs:db:early-ids", fmt.Sprintf("%s: clone root=%d digest=%s, origin root=%d digest=%s", where, e.rootID, e.dig, o.db.RootID(), o.db.TOCDigest()))
+	}
+	names, err := verifNames(o.db)
+	if d := verifSameLines(e.names, names); d != "" || (e.lsErr == nil) != (err == nil) {
+		out.Fail("clone-differs:db:early-listing", fmt.Sprintf("%s: a Clone taken right after NewReader and used at once shows another tree than the reader after initialization (%d vs %d paths; %s; errs %v / %v)", where, len(e.names), len(names), d, e.lsErr, err))
+		return
+	}
+	if l.class == "conf" && o.mem != nil {
+		mn, _ := verifNames(o.mem)
+		if d := verifSameLines(e.names, mn); d != "" {
+			out.Fail("clone-differs:db:early-vs-mem", fmt.Sprintf("%s: early db clone vs memory store: %s", where, d))
 		}
 	}
 }
